@@ -308,7 +308,7 @@ def run(chk):
       code = next((k for m, k in ERRCODE if m in impl['msg']), None)
       rows.append((('vmap', c, o), '(match %s with Err code => %s | Ok _ => false end)' % (model, 'N.eqb code %s' % cN(code) if code else 'true')))
     else:
-      rows.append((('vmap', c, o), '(match %s with Ok (vals, ys) => list_beq vval_beq vals %s && list_beq Z.eqb ys %s | Err _ => false end)' % (
+      rows.append((('vmap', c, o), '(match %s with Ok (vals, ys) => list_beq vval_beq vals %s && list_beq weq ys %s | Err _ => false end)' % (
           model, clist([cvval_obs(x) for x in impl['ok']['vals']]), clist([cZ(y) for y in impl['ok']['ys']]))))
   # ---- scan
   f22_seen = False
@@ -331,7 +331,7 @@ def run(chk):
       stat['scan_err'] += 1
       rows.append((('scan', c, o), '(match %s with Err _ => true | Ok _ => false end)' % model))
     else:
-      rows.append((('scan', c, o), '(match %s with Ok (vals, cf, ys) => list_beq vval_beq vals %s && Z.eqb cf %s && list_beq Z.eqb ys %s | Err _ => false end)' % (
+      rows.append((('scan', c, o), '(match %s with Ok (vals, cf, ys) => list_beq vval_beq vals %s && weq cf %s && list_beq weq ys %s | Err _ => false end)' % (
           model, clist([cvval_obs(x) for x in impl['ok']['vals']]), cZ(impl['ok']['carry']), clist([cZ(y) for y in impl['ok']['ys']]))))
   # ---- grad
   for c, o in zip(gr, gres):
@@ -356,8 +356,10 @@ def run(chk):
         exp_g, clist([cZ(int(v)) for v in r['vals']]), (' && Z.eqb (g_value r) %s' % cZ(int(r['value']))) if r['value'] is not None else ''))
     rows.append((('grad', c, o), row))
   chk.sample({'vmap_case': vm[0], 'observed': vres[0]})
-  hdr = HEADER + '''Definition vval_beq (a b : vval) : bool :=
-  match a, b with Whole x, Whole y => list_beq Z.eqb x y | Slices x, Slices y => list_beq (list_beq Z.eqb) x y | _, _ => false end.
+  hdr = HEADER + '''(* the implementation computes in int64, the model in Z; the bodies are ring expressions, so the two agree modulo 2^64 *)
+Definition weq (a b : Z) : bool := Z.eqb ((a - b) mod 18446744073709551616) 0.
+Definition vval_beq (a b : vval) : bool :=
+  match a, b with Whole x, Whole y => list_beq weq x y | Slices x, Slices y => list_beq (list_beq weq) x y | _, _ => false end.
 Definition chk (b : bool) : bool := b.
 '''
   bad = common.coq_mismatches('c08', hdr, [r[1] for r in rows], 'chk', shard=60, timeout=900)
